@@ -63,7 +63,7 @@ func scanOutcome(c *acCase, kind string, file []byte) (n int, bad bool, end stri
 		}
 	}
 	switch kind {
-	case "br-next", "br-next-plain", "br-skip", "br-alt", "br-skip-bufio", "br-next-dataerr", "br-skip-dataerr":
+	case "br-next", "br-next-plain", "br-skip", "br-alt", "br-skip-bufio", "br-next-dataerr", "br-skip-dataerr", "br-next-zero", "br-skip-zero":
 		var r io.Reader = bytes.NewReader(file)
 		switch kind {
 		case "br-next-plain":
@@ -73,7 +73,11 @@ func scanOutcome(c *acCase, kind string, file []byte) (n int, bad bool, end stri
 		case "br-next-dataerr", "br-skip-dataerr": // a stream that hands out its last bytes together with io.EOF
 			r = iotest.DataErrReader(&plainReader{bytes.NewReader(file)})
 		}
-		br, err := carv2.NewBlockReader(r)
+		var bropts []carv2.Option
+		if strings.HasSuffix(kind, "-zero") { // ZeroLengthSectionAsEOF must not turn a cut into a clean end
+			bropts = append(bropts, carv2.ZeroLengthSectionAsEOF(true))
+		}
+		br, err := carv2.NewBlockReader(r, bropts...)
 		if err != nil {
 			return 0, false, "ctor-err", err.Error()
 		}
@@ -131,7 +135,7 @@ func scanOutcome(c *acCase, kind string, file []byte) (n int, bad bool, end stri
 }
 
 func truncReaders(c *acCase) []string {
-	rs := []string{"br-next", "br-next-plain", "br-skip", "br-alt", "br-skip-bufio", "br-next-dataerr", "br-skip-dataerr", "inspect"}
+	rs := []string{"br-next", "br-next-plain", "br-skip", "br-alt", "br-skip-bufio", "br-next-dataerr", "br-skip-dataerr", "br-next-zero", "br-skip-zero", "inspect"}
 	if c.A.Ver == 1 {
 		rs = append(rs, "root-reader", "int-reader")
 		if len(c.A.Roots) > 0 {
